@@ -27,6 +27,7 @@ for name in sorted(os.listdir(sd)):
             meta['rule_added_after_first_miss'] = True
     else:
         meta['detected_by'] = None
-        meta['not_detected_reason'] = why
+        if not str(meta.get('not_detected_reason', '')).startswith('not decided by this family'):
+            meta['not_detected_reason'] = why
     json.dump(meta, open(mp, 'w', encoding='utf-8'), indent=1, ensure_ascii=False)
     print(name, status, why[:140])
